@@ -27,6 +27,11 @@ P = {'id': 'C06',
              '(re-insertion of every bucket, old value slots not released), get/get_mut, remove (free_value, rehash_after_removal: take out and re-place the following cluster), len; the hash function '
              '(AHasher) is a parameter; insert_batch, get_batch, shrink_to_fit and the memory statistics are not modelled; answers only are compared (the type exposes no layout)',
              'spec-only cells (direct oracle against std BTreeMap, no mechanism model): HashStrMap (a wrapper around std HashMap), ZiporaHashMap<String> (Borrow lookups), SmallMap<u8>::get_fast (SIMD key search)',
+             'oracle only (no model, judged by the BTreeMap shadow inside the same histories): housekeeping calls (reserve, shrink_to_fit, revoke_deleted, set_hash_caching, set_auto_grow, '
+             'set_max_load_factor, statistics, Debug), Clone / PartialEq, bulk insertion (insert_batch, extend, Extend, FromIterator), alternative lookups (get_batch, get_or_default, get_by_fast_str, '
+             'is_interned), get_or_insert(_with) on absent keys, retain, alternative iteration (iter_fast, keys/values, ExactSizeIterator), every further constructor / preset / builder option, '
+             'seven rarely used key/value type pairs, eighteen hash functions of hash_functions.rs as the caller-supplied hasher, threshold sweeps and fills past 2^16 entries; the model comparison '
+             'skips the content-preserving ones and stops before the first content-changing one',
              'std_refines_map is stated for power-of-two initial capacities (default 16, pool preset 64, with_capacity(2^k)); other capacities (with_capacity(100), custom initial_capacity 3/10/24, '
              'capacity left by clear()) are covered by the model/implementation comparison and the oracle only',
              'the harness hashers (ten functions incl. constant 0, constant u64::MAX, k mod 4, k<<60) are mirrored by `hasher` in Model.v; a mismatch between the two shows up as a model/implementation disagreement',
